@@ -99,7 +99,7 @@ def build(ck):
     T = A.AlgTheory(ck.P)
     P = ck.P
     ck.trust('lemma:LA1 scalars are central (coefficient factored out of the word)',
-             'lemma:W-fold (split/single/pair/empty/congruence of the product of a slice; induction)',
+             'proved:W-fold lemmas (split/single/pair/congruence: obligations lemma-base/lemma-step of this check; only the induction principle is meta-level)',
              'lemma:filter-preserves-product (dropping neutral square factors from a chain; induction)',
              'lemma:container-congruence (sum / block row / diagonal / column are functions of their blocks)')
     ck.assume_note('C01: operator containers (sum terms, blocks) are modelled as flat leaf sequences with an opaque '
@@ -107,6 +107,8 @@ def build(ck):
     ck.assume_note('C01: termination of the rule scan is not proved (no variant); only partial correctness')
     driver.scan(ck, T, 'C01')
     driver.rules_scenarios(ck, T, 'C01')
+    from props import lemmas
+    lemmas.w_lemmas(ck)          # the W-fold lemmas instantiated throughout are proved here by induction
     axioms = driver.size_axioms() + A.reduce_axioms() + T.class_axioms()
 
     # ------------------------------------------------------------------ CompositionOperator.reduce
